@@ -30,18 +30,30 @@ def run(ctx, replay_ops=None):
     pc.account(ctx, ops, impl)
     dist = ctx.cov["distribution"]
 
-    # 1. monitor on the implementation alone
+    # 1. monitor on the implementation alone.  Scope = the theorem's hypothesis RunOK: the round equality is claimed for payloads that were
+    #    delivered as payloadVerified while the player was in the block's round (the generator also replays / shifts / pipelines
+    #    validated payloads of other rounds; for those only step and value are re-checked here, the bundle by the harness).
+    import re
     hits = 0
     n_ens = 0
-    for i, a in enumerate(impl):
+    n_off = 0
+    cur_round, off = None, set()
+    for i, (o, a) in enumerate(zip(ops, impl)):
+        f = o.split()
+        if f and f[0] == "reset":
+            cur_round, off = int(f[15]), set()
+        elif f and f[0] == "pl" and f[1] == "1" and f[2] not in ("1", "2") and cur_round is not None and int(f[4]) != cur_round:
+            off.add(f[3])
         ens = pc.ensure_actions(a)
         n_ens += len(ens)
         bad = "c03=BAD" in a or "bundle=BAD" in a or (ens and a.count("## c03=ok") != len(ens))
         # structural re-check in python, independent of the harness's verdict: step, round, value
         for e in ens:
-            f = e.split()
-            pay_v, pay_r = f[1].split(":")
-            if f[4] != "2" or f[2] != pay_r or f[5] != pay_v:
+            g = e.split()
+            pay_v, pay_r = g[1].split(":")
+            if pay_v in off:
+                n_off += 1
+            if g[4] != "2" or (g[2] != pay_r and pay_v not in off) or g[5] != pay_v:
                 bad = True
         if bad:
             hits += 1
@@ -50,6 +62,10 @@ def run(ctx, replay_ops=None):
                 ctx.violation("monitor: the real router emitted an ensure action whose certificate does not authenticate the payload, or a bundle that does not verify: "
                               + a.split(" | ")[0][:300] + " … " + " ".join(t for t in a.split(" ## ")[1:]),
                               {"kind": "monitor", "ops": ops[j:i + 1], "impl_out": a, "harness": pc.HZ}, found_input=True)
+        m = re.search(r"\| R=(\d+) ", pc.live_part(a))
+        if m:
+            cur_round = int(m.group(1))
+    dist["monitor:ensures_of_off_round_payloads(outside RunOK)"] = n_off
     dist["monitor:ensure_actions_checked"] = n_ens
 
     # 2. correspondence with PlayerM.  ensure_cert_valid does not pin the whole output line; a divergence is a failing input for C03
